@@ -24,7 +24,7 @@ fn second_problem(scn: &mut Scenario, rng: &mut Xo, families: &[&'static str]) {
     let sampler = scn.problems[0].goal.sampler;
     scn.problems.push(ProblemSpec {
         starts: vec![wb.start],
-        goal: GoalSpec { target: wb.target, radius: wb.goal_radius, sampler, sampler_seed: rng.u64() % 1_000_000, comp: wb.goal_comp, harness_metric: scn.problems[0].goal.harness_metric },
+        goal: GoalSpec { target: wb.target, radius: wb.goal_radius, sampler, sampler_seed: rng.u64() % 1_000_000, comp: wb.goal_comp, harness_metric: scn.problems[0].goal.harness_metric, cycle: vec![] },
         world: scn.worlds.len() - 1,
         space: own_space,
     });
@@ -77,7 +77,7 @@ fn second_problem_same_world_v(scn: &mut Scenario, rng: &mut Xo, invalid_start: 
     let same_goal = !own_space && rng.chance(0.33);
     scn.problems.push(ProblemSpec {
         starts: vec![s2],
-        goal: if same_goal { g.clone() } else { GoalSpec { target: t2, radius: g.radius, sampler: g.sampler, sampler_seed: g.sampler_seed + 1, comp: None, harness_metric: g.harness_metric } },
+        goal: if same_goal { g.clone() } else { GoalSpec { target: t2, radius: g.radius, sampler: g.sampler, sampler_seed: g.sampler_seed + 1, comp: None, harness_metric: g.harness_metric, cycle: vec![] } },
         world: 0,
         space: sp,
     });
@@ -720,7 +720,7 @@ impl Check for PathProp {
                         continue;
                     }
                     let mut p = scn.problems[0].clone();
-                    p.goal = GoalSpec { target: state.clone(), radius: 1e-6 * ext, sampler: GoalSampler::Fixed, sampler_seed: 0, comp: None, harness_metric: scn.problems[0].goal.harness_metric };
+                    p.goal = GoalSpec { target: state.clone(), radius: 1e-6 * ext, sampler: GoalSampler::Fixed, sampler_seed: 0, comp: None, harness_metric: scn.problems[0].goal.harness_metric, cycle: vec![] };
                     p.space = None;
                     d.problems.push(p);
                     d.calls.push(CallSpec::SetProblem { problem: d.problems.len() - 1 });
@@ -1262,7 +1262,7 @@ fn c08_small_world(rng: &mut Xo, kind: PlannerKind, seed: u64, index: u64) -> Sc
     let g = scn.problems[0].goal.clone();
     scn.problems.push(ProblemSpec {
         starts: vec![s2],
-        goal: GoalSpec { target: t2, radius: g.radius, sampler: GoalSampler::Harness, sampler_seed: g.sampler_seed + 1, comp: None, harness_metric: g.harness_metric },
+        goal: GoalSpec { target: t2, radius: g.radius, sampler: GoalSampler::Harness, sampler_seed: g.sampler_seed + 1, comp: None, harness_metric: g.harness_metric, cycle: vec![] },
         world: 0, space: None
     });
     scn
@@ -1413,6 +1413,32 @@ impl Check for C08 {
                 })
                 .collect();
             scn.params.insert("c08_range".into(), 1.0);
+            return scn;
+        }
+        // (4b) a narrow rotation cone (5 to 15 degrees): rejection sampling needs thousands of
+        // draws per sample — slow but legal, and sampling must still not fail
+        if i % 2003 == 1 {
+            let kind = *rng.pick(&PlannerKind::ALL);
+            let mut scn = c08_small_world(&mut rng, kind, seed, index);
+            let q = { let v: Vec<f64> = (0..4).map(|_| rng.range(-1.0, 1.0)).collect(); let n = v.iter().map(|x| x * x).sum::<f64>().sqrt().max(1e-9); [v[0] / n, v[1] / n, v[2] / n, v[3] / n] };
+            let a = rng.range(0.09, 0.26);
+            scn.space = SpaceSpec::SO3 { bounds: Some((q, a)), frac: 0.05 };
+            scn.worlds = vec![WorldSpec::default()];
+            scn.problems.truncate(1);
+            scn.problems[0].space = None;
+            scn.problems[0].starts = vec![q.to_vec()];
+            scn.problems[0].goal.target = q.to_vec();
+            scn.problems[0].goal.radius = 0.5 * a;
+            scn.problems[0].goal.comp = None;
+            scn.problems[0].goal.sampler = GoalSampler::Fixed;
+            scn.planner.max_distance = 0.3 * a;
+            scn.planner.search_radius = 0.6 * a;
+            scn.planner.connection_radius = a;
+            scn.planner.goal_bias = 0.0;
+            scn.params.insert("ext".into(), 2.0 * a);
+            scn.calls = if kind == PlannerKind::PRM { vec![CallSpec::Setup { problem: 0 }, gen::construct_call(4), solve_budget(1)] } else { vec![CallSpec::Setup { problem: 0 }, solve_budget(4)] };
+            scn.family = "narrow_cone".into();
+            scn.params.insert("c08_range".into(), 4.0);
             return scn;
         }
         // (4) well-formed scenarios from all families
